@@ -467,6 +467,7 @@ def _build_partition(index, data, rng, block_log2, dpfs_block_log2, external_lv4
             'slack': _merge(pslack),
             'view_slack': _merge(vslack),
             'lv1_range': (off_d1 + selector * size_d1, size_d1),
+            'areas': ((off_d1, size_d1), (off_d2, size_d2), (off_d3, size_d3)),     # start and per-copy size of the two-copy areas
             'd2_block_off': d2_block_off, 'd3_block_off': d3_block_off,
             'master': (hash_off, hash_size),
             'fields': fields,
@@ -486,6 +487,7 @@ def _relocate(pinfo, part_off, part_size, table_off, desc_off, desc_size):
     pinfo['hash_ranges'] = {k + 1: [runs[0] for runs in segs[k]] for k in range(3)}
     pinfo['lv4_ranges'] = [runs[0] for runs in segs[3]]
     pinfo['dpfs_lv1_range'] = (rel['lv1_range'][0] + part_off, rel['lv1_range'][1])
+    pinfo['dpfs_areas'] = tuple((o + part_off, n) for o, n in rel['areas'])
     pinfo['dpfs_lv2_block_offsets'] = [o + part_off for o in rel['d2_block_off']]
     pinfo['dpfs_lv3_block_offsets'] = [o + part_off for o in rel['d3_block_off']]
     pinfo['inactive_ranges'] = [(o + part_off, n) for o, n in rel['inactive']]
